@@ -239,11 +239,26 @@ def lattice_template(model, R, rules):
         raise Unrecognised('known/new neighbour branch', func=func, node=f)
     br = ifs[0]
     t, neg = strip_not(br.test)
-    if not (isinstance(t, ast.Compare) and len(t.ops) == 1 and isinstance(t.ops[0], (ast.In, ast.NotIn)) and name_is(t.comparators[0], mvar)):
+    known_rec = None     # name bound to the registered record of a known neighbour (``rec = mapping.get(n_extent)`` idiom)
+    from ..astutil import is_none_test
+    nt = is_none_test(br.test)
+    if isinstance(t, ast.Compare) and len(t.ops) == 1 and isinstance(t.ops[0], (ast.In, ast.NotIn)) and name_is(t.comparators[0], mvar):
+        known_when_true = isinstance(t.ops[0], ast.In) != neg
+        if G:
+            R.check(name_is(t.left, ne), G, func, br.test, 'lattice: a neighbour is known iff its extent is registered', f'{ne} in {mvar}', src(br.test))
+    elif nt is not None:
+        # rec = mapping.get(n_extent) ; if rec is None: <new> else: <known>
+        getter = [s_ for s_ in f.body if isinstance(s_, ast.Assign) and name_is(s_.targets[0], nt[0]) and isinstance(s_.value, ast.Call)
+                  and chain(s_.value.func) == [mvar, 'get'] and len(s_.value.args) == 1]
+        if len(getter) != 1:
+            raise Unrecognised(f'dedup test {src(br.test)}', func=func, node=br)
+        known_rec = nt[0]
+        known_when_true = not nt[1]
+        if G:
+            R.check(name_is(getter[0].value.args[0], ne), G, func, getter[0], 'lattice: a neighbour is known iff its extent is registered',
+                    f'{mvar}.get({ne}) is not None', src(getter[0].value))
+    else:
         raise Unrecognised(f'dedup test {src(br.test)}', func=func, node=br)
-    known_when_true = isinstance(t.ops[0], ast.In) != neg
-    if G:
-        R.check(name_is(t.left, ne), G, func, br.test, 'lattice: a neighbour is known iff its extent is registered', f'{ne} in {mvar}', src(br.test))
     known, new = (br.body, br.orelse) if known_when_true else (br.orelse, br.body)
     # known branch: lower link
     low = [s for s in known if isinstance(s, ast.Expr) and isinstance(s.value, ast.Call) and isinstance(s.value.func, ast.Attribute)
@@ -251,10 +266,18 @@ def lattice_template(model, R, rules):
     if L:
         ok = False
         found = src(known)
-        if len(low) == 1 and len(known) == 1:
+        if len(low) == 1:
             recv = low[0].value.func.value
-            ok = (isinstance(recv, ast.Subscript) and const(recv.slice) == 3 and isinstance(recv.value, ast.Subscript)
-                  and name_is(recv.value.value, mvar) and name_is(recv.value.slice, ne) and name_is(low[0].value.args[0], ext))
+            # the record of the known neighbour: mapping[n_extent] or the name bound by mapping.get(n_extent)
+            def is_record(n_):
+                return ((isinstance(n_, ast.Subscript) and name_is(n_.value, mvar) and name_is(n_.slice, ne))
+                        or (known_rec is not None and name_is(n_, known_rec)))
+            direct = isinstance(recv, ast.Subscript) and const(recv.slice) == 3 and is_record(recv.value) and len(known) == 1
+            unpacked = False
+            if isinstance(recv, ast.Name) and len(known) == 2 and isinstance(known[0], ast.Assign) and isinstance(known[0].targets[0], ast.Tuple) \
+                    and len(known[0].targets[0].elts) == 4 and is_record(known[0].value):
+                unpacked = name_is(known[0].targets[0].elts[3], recv.id)
+            ok = (direct or unpacked) and name_is(low[0].value.args[0], ext)
         R.check(ok, L, func, low[0] if low else br, 'lattice: converse lower link recorded on the known neighbour',
                 f'{mvar}[{ne}][3].append({ext})', found[:100])
     # new branch: insert + push
